@@ -1,16 +1,26 @@
 package client
 
 import (
+	"bufio"
+	"crypto/ecdsa"
+	"crypto/elliptic"
+	crand "crypto/rand"
+	"crypto/tls"
+	"crypto/x509"
+	"crypto/x509/pkix"
 	"encoding/base64"
 	"encoding/json"
 	"fmt"
 	"io"
+	"math/big"
 	"net"
+	"net/http"
 	"os"
 	"path/filepath"
 	"reflect"
 	"sort"
 	"strings"
+	"sync"
 	"testing"
 	"time"
 
@@ -124,6 +134,8 @@ type c20Expect struct {
 	Mode       string // direct | cdn
 	Browser    browser
 	WsURL      string
+	WsHost     string // Host header of the upgrade request
+	WsPath     string // request target of the upgrade request, exactly as configured
 	Names      []string
 	Enc        byte
 	Unordered  bool
@@ -188,6 +200,8 @@ func c20Table(c *c20Case) c20Expect {
 			path = "/"
 		}
 		e.WsURL = "ws://" + net.JoinHostPort(host, val(c.RemotePort)) + path
+		e.WsHost = net.JoinHostPort(host, val(c.RemotePort))
+		e.WsPath = path
 	}
 	switch strings.ToLower(val(c.BrowserSig)) {
 	case "firefox":
@@ -304,8 +318,13 @@ func c20Run(c c20Case) (vk.Result, error) {
 			if !ok {
 				return res, vk.ViolateSig("transport", "[%s] Transport=%q selects %T, documented: CDN (WebSocket) transport", which, c.Transport.Value, tr)
 			}
-			if ws.wsUrl != want.WsURL {
-				return res, vk.ViolateSig("cdnurl", "[%s] CDN url %q, documented %q", which, ws.wsUrl, want.WsURL)
+			// observed on the wire, not in the transport's fields: the upgrade request the CDN front receives
+			gotURI, gotHost, cerr := c20CaptureUpgrade(ws, auth)
+			if cerr != nil {
+				return res, vk.ViolateSig("cdnurl", "[%s] CDN transport with url %q: no upgrade request reached the CDN front: %v", which, want.WsURL, cerr)
+			}
+			if gotHost != want.WsHost || gotURI != want.WsPath {
+				return res, vk.ViolateSig("cdnurl", "[%s] the upgrade request asks for %q at host %q; configured CDNWsUrlPath / CDNOriginHost (or RemoteHost) give %q at %q", which, gotURI, gotHost, want.WsPath, want.WsHost)
 			}
 			res.Labels = append(res.Labels, "cdn")
 		default:
@@ -381,7 +400,7 @@ func c20Gen(rt *rapid.T) c20Case {
 	c.BrowserSig = c20Opt{pres("pBS", 70), rapid.SampledFrom([]string{"chrome", "firefox", "safari", "Chrome", "FIREFOX", "Safari", "opera"}).Draw(rt, "bs")}
 	c.Transport = c20Opt{pres("pTR", 70), rapid.SampledFrom([]string{"direct", "CDN", "cdn", "Direct", "DIRECT", "Cdn"}).Draw(rt, "tr")}
 	c.CDNOriginHost = c20Opt{pres("pCO", 40), host.Draw(rt, "co")}
-	c.CDNWsUrlPath = c20Opt{pres("pCP", 40), rapid.SampledFrom([]string{"/", "/ws", "/a/b?x=1", "/path=="}).Draw(rt, "cp")}
+	c.CDNWsUrlPath = c20Opt{pres("pCP", 40), rapid.SampledFrom([]string{"/", "/ws", "/a/b?x=1", "/path==", "/cloak%2Fws", "/ws?ed=2048", "/deep/er/path/"}).Draw(rt, "cp")}
 	c.StreamTimeout = c20Opt{pres("pST", 60), fmt.Sprint(rapid.SampledFrom([]int{0, 1, 300, 30, 86400}).Draw(rt, "st"))}
 	c.KeepAlive = c20Opt{pres("pKA", 70), fmt.Sprint(rapid.SampledFrom([]int{-5, 0, 1, 15, 3600, 30}).Draw(rt, "ka"))}
 	c.EscapeEquals = rapid.Bool().Draw(rt, "esc")
@@ -427,4 +446,57 @@ func TestVerif_C20_NoCrash(t *testing.T) {
 		}
 		return res, nil
 	})
+}
+
+// c20CaptureUpgrade lets the CDN transport perform its handshake against an in-process TLS front and returns the
+// request target and Host header of the WebSocket upgrade request it sends.
+func c20CaptureUpgrade(tr *WSOverTLS, auth AuthInfo) (uri, host string, err error) {
+	l := vk.NewLink(0, false) // buffered both ways (net.Pipe deadlocks when both TLS ends write at once)
+	l.SetAuto(vk.AtoB, true)
+	l.SetAuto(vk.BtoA, true)
+	cc, sc := l.A, l.B
+	defer cc.Close()
+	defer sc.Close()
+	type got struct {
+		uri, host string
+		err       error
+	}
+	ch := make(chan got, 1)
+	go func() {
+		ts := tls.Server(sc, &tls.Config{Certificates: []tls.Certificate{c20Cert()}})
+		ts.SetDeadline(time.Now().Add(10 * time.Second))
+		if err := ts.Handshake(); err != nil {
+			ch <- got{err: err}
+			return
+		}
+		req, err := http.ReadRequest(bufio.NewReader(ts))
+		if err != nil {
+			ch <- got{err: err}
+			return
+		}
+		ch <- got{uri: req.RequestURI, host: req.Host}
+		ts.Close()
+	}()
+	go tr.Handshake(cc, auth)
+	select {
+	case g := <-ch:
+		return g.uri, g.host, g.err
+	case <-time.After(15 * time.Second):
+		return "", "", fmt.Errorf("timeout")
+	}
+}
+
+var (
+	c20CertOnce sync.Once
+	c20CertVal  tls.Certificate
+)
+
+func c20Cert() tls.Certificate {
+	c20CertOnce.Do(func() {
+		key, _ := ecdsa.GenerateKey(elliptic.P256(), crand.Reader)
+		tmpl := &x509.Certificate{SerialNumber: big.NewInt(1), Subject: pkix.Name{CommonName: "cdn.test"}, NotBefore: time.Unix(0, 0), NotAfter: time.Unix(4102444800, 0), DNSNames: []string{"cdn.test"}}
+		der, _ := x509.CreateCertificate(crand.Reader, tmpl, tmpl, &key.PublicKey, key)
+		c20CertVal = tls.Certificate{Certificate: [][]byte{der}, PrivateKey: key}
+	})
+	return c20CertVal
 }
